@@ -311,15 +311,11 @@ def strftime(eng, v, fmt):
 class _TimeTuple(tuple):
     """time.struct_time of a symbolic datetime: (year, month, day, hour, minute, second, weekday, yearday, isdst)"""
 
-    tm_year = property(lambda self: self[0])
-    tm_mon = property(lambda self: self[1])
-    tm_mday = property(lambda self: self[2])
-    tm_hour = property(lambda self: self[3])
-    tm_min = property(lambda self: self[4])
-    tm_sec = property(lambda self: self[5])
-    tm_wday = property(lambda self: self[6])
-    tm_yday = property(lambda self: self[7])
-    tm_isdst = property(lambda self: self[8])
+    def __new__(cls, items):
+        obj = tuple.__new__(cls, items)
+        (obj.tm_year, obj.tm_mon, obj.tm_mday, obj.tm_hour, obj.tm_min, obj.tm_sec, obj.tm_wday, obj.tm_yday,
+         obj.tm_isdst) = items
+        return obj
 
 
 def time_tuple(eng, v, isdst):
